@@ -16,13 +16,15 @@ sys.path.insert(0, os.path.join(VERIF, "gen"))
 import vlib
 import build as B
 
-LEVEL = "model_checking"
+LEVEL = "exploration"
 PROFILE = os.environ.get("C03_PROFILE", "plain")
 RULE = ("every program of the typed LPC grammar of gen/lpcgen.py (families: literal encodings, unary, binary operators over "
         "int/float/string/array/mapping/buffer pairs incl. mismatches, all assignment operators on local/global/index/mapping "
         "lvalues, ++/-- incl. char lvalues, depth-2 expressions, indexing and ranging (rvalue and lvalue, all '<' forms), "
-        "if/switch (direct, sorted, range, string tables), for/while/do/foreach loop shapes incl. F_LOOP_COND_*/F_WHILE_DEC, "
-        "local/inherited/function-pointer calls, macros and #if) over the boundary leaf alphabets, each computation in all "
+        "conditions, if/switch (direct, sorted, range, string tables; every table size 1..20 [thorough: ..40] x every probe position), "
+        "for/while/do/foreach loop shapes incl. F_LOOP_COND_*/F_WHILE_DEC, local/inherited/function-pointer calls, macros and #if, "
+        "class members, catch, sscanf lvalues; thorough adds depth-3 expressions (5 tree shapes, 3-value alphabets)) over the boundary "
+        "leaf alphabets, each computation in all "
         "its sibling spellings; every function is compiled and called on the real compiler/interpreter; verdict (i) sibling "
         "agreement, (ii) independent reference evaluator (silent where the manual is)")
 
@@ -332,6 +334,16 @@ def evaluate(ck, d, tier, tag, only=None, jobs=16, deadline_s=0, selftest=None):
                 if size < e[1]:
                     e[1:] = [size, g, kind, a, b, msg]
     stats["distinct_outcomes"] = len(distinct)
+    seen_fam = set()
+    for g in w.groups:
+        if g.fam in seen_fam or len(ck.samples) >= 6 or not all(n in results for n in g.names):
+            continue
+        seen_fam.add(g.fam)
+        prelude, blocks = lpcgen.read_unit_blocks(os.path.join(d, "u%05d.c" % g.unit))
+        ck.samples.append({"part": tag, "computation": g.note.decode("utf-8", "replace"),
+                           "reference": show((g.ref[0], g.ref[1])) if g.ref else "undefined (manual silent)",
+                           "spellings": [{"spelling": g.members[k][0], "source": blocks[n][1].decode("utf-8", "replace")[:400],
+                                          "outcome": show(outcome(*results[n]))} for k, n in enumerate(g.names)][:4]})
     # ':i64' marks computations with an operand outside int32: keep the mark only when the plain class does not fail too
     for key in [k for k in found if ":i64" in k]:
         plain = key.replace(":i64", "")
@@ -356,7 +368,7 @@ def evaluate(ck, d, tier, tag, only=None, jobs=16, deadline_s=0, selftest=None):
 
 def run(ck):
     d = os.path.join(B.BUILD, "c03", ck.tier)
-    stats = evaluate(ck, d, ck.tier, ck.tier, jobs=16, deadline_s=2000 if ck.tier == "thorough" else 200)
+    stats = evaluate(ck, d, ck.tier, ck.tier, jobs=16, deadline_s=2100 if ck.tier == "thorough" else 220)
     if not os.environ.get("C03_KEEP"):
         shutil.rmtree(d, ignore_errors=True)          # replay artefacts carry their own source
     stats["evaluations"] = stats["functions"]        # one evaluation = one generated function compiled and called
@@ -381,7 +393,7 @@ def selftest(ck):
     orig = lpcref.wrap
     lpcref.wrap = lambda x: ((x + (1 << 31)) & 0xffffffff) - (1 << 31)
     ck1 = vlib.Check("C03", "quick", 0, LEVEL)
-    evaluate(ck1, d, "quick", "selftest1", only={"literal", "unary"}, jobs=8)
+    evaluate(ck1, d, "small", "selftest1", only={"literal", "unary"}, jobs=8)
     lpcref.wrap = orig
     hits = [k for k in ck1.fails if k.startswith("C03:ref:unop:neg")]
     print("selftest 1 (reference wraps at 32 bit): %s" % (sorted(hits)[:3] or "NOTHING"))
@@ -395,7 +407,7 @@ def selftest(ck):
         assert s2 != s
         open(p, "wb").write(s2)
     ck2 = vlib.Check("C03", "quick", 0, LEVEL)
-    evaluate(ck2, d, "quick", "selftest2", only={"literal"}, jobs=8, selftest=corrupt)
+    evaluate(ck2, d, "small", "selftest2", only={"literal"}, jobs=8, selftest=corrupt)
     hits = [k for k in ck2.fails if k.startswith("C03:sibling:literal")]
     print("selftest 2 (one spelling corrupted): %s" % (sorted(hits)[:3] or "NOTHING"))
     bad |= not hits
